@@ -814,6 +814,8 @@ FIXED_CASTS = [
     ('double', '1e22', 'untypedAtomic'), ('double', '1.5e20', 'string'), ('double', '1e-7', 'string'),
     ('double', '1234567', 'string'), ('float', '-INF', 'untypedAtomic'), ('boolean', '1', 'normalizedString'),
     ('boolean', 'true', 'language'), ('double', '1.23456789012', 'float'), ('double', '1e-38', 'float'),
+    ('double', '3.4028234663852886e38', 'float'), ('double', '-3.4028234663852886e38', 'float'), ('float', '3.4028235E38', 'string'),
+    ('float', '3.4028235E38', 'double'), ('decimal', '340282346638528860000000000000000000000', 'float'),
     ('dateTime', '2000-01-01T12:00:00', 'dateTimeStamp'), ('dateTime', '2000-01-01T12:00:00Z', 'dateTimeStamp'),
     ('date', '2000-01-01', 'dateTimeStamp'), ('date', '2000-01-01Z', 'dateTimeStamp'),
     ('hexBinary', '0aF1', 'base64Binary'), ('base64Binary', 'Zm9v YmE=', 'hexBinary'), ('integer', '300', 'byte'),
